@@ -613,11 +613,17 @@ class Fn:
 
     PASS_THROUGH = ("clone", "value", "into", "from", "deref", "deref_mut", "as_ref", "borrow", "to_owned", "unwrap", "expect", "copied", "cloned", "branch")
 
-    def nearest_calls(self, local, depth=12):
+    def provenance_locals(self, local, depth=12):
+        """the locals the value in `local` flows from through copies, references, casts and pass-through adaptors"""
+        seen = set()
+        self.nearest_calls(local, depth, seen)
+        return seen
+
+    def nearest_calls(self, local, depth=12, seen=None):
         """the calls that *produce* the value in `local`: follow copies/moves/casts/refs backwards; stop at
         call results (going through pure pass-through adaptors such as clone()/value()/into()); parameters
         are reported as ("param", n). Far more precise than dep_closure for provenance questions."""
-        out, seen = set(), set()
+        out, seen = set(), (set() if seen is None else seen)
         work = [(local, 0)]
         defs = collections.defaultdict(list)
         for b in self.blocks:
